@@ -898,7 +898,58 @@ func (o *ovsdbClient) Monitor(ctx context.Context, monitor *Monitor) (MonitorCoo
 	db := o.databases[o.primaryDBName]
 	db.monitorsMutex.Lock()
 	defer db.monitorsMutex.Unlock()
-	return cookie, o.monitor(ctx, cookie, false, monitor)
+	// Notifications for the new monitor can arrive before its reply has been
+	// applied to the cache (the connection is live when this is an additional
+	// monitor). Hold notifications back until the initial contents are in,
+	// exactly as for the first monitor of a connection.
+	db.cacheMutex.Lock()
+	wasDeferring := db.deferUpdates
+	db.deferUpdates = true
+	db.cacheMutex.Unlock()
+	err := o.monitor(ctx, cookie, false, monitor)
+	if err != nil && !wasDeferring {
+		// the monitor was not established: apply what was held back and
+		// resume normal processing for the monitors that exist
+		db.cacheMutex.Lock()
+		if db.cache != nil {
+			if flushErr := db.applyDeferredUpdates(""); flushErr != nil {
+				o.logger.Error(flushErr, "failed to apply deferred updates")
+			}
+		} else {
+			db.deferUpdates = false
+			db.deferredUpdates = make([]*bufferedUpdate, 0)
+		}
+		db.cacheMutex.Unlock()
+	}
+	return cookie, err
+}
+
+// applyDeferredUpdates applies, in order of arrival, the notifications that
+// were held back, and resumes normal processing. If monitorID is not empty,
+// transaction ids carried by the notifications are recorded for that monitor.
+// cacheMutex must be held.
+func (db *database) applyDeferredUpdates(monitorID string) error {
+	db.deferUpdates = false
+	deferred := db.deferredUpdates
+	// clear deferred updates for next time
+	db.deferredUpdates = make([]*bufferedUpdate, 0)
+	for _, update := range deferred {
+		if update.updates != nil {
+			if err := db.cache.Populate(*update.updates); err != nil {
+				return err
+			}
+		}
+
+		if update.updates2 != nil {
+			if err := db.cache.Populate2(*update.updates2); err != nil {
+				return err
+			}
+		}
+		if len(update.lastTxnID) > 0 && monitorID != "" {
+			db.monitors[monitorID].LastTransactionID = update.lastTxnID
+		}
+	}
+	return nil
 }
 
 // If fields is provided, the request will be constrained to the provided columns
@@ -1052,27 +1103,7 @@ func (o *ovsdbClient) monitor(ctx context.Context, cookie MonitorCookie, reconne
 	}
 
 	// populate any deferred updates
-	db.deferUpdates = false
-	for _, update := range db.deferredUpdates {
-		if update.updates != nil {
-			if err = db.cache.Populate(*update.updates); err != nil {
-				return err
-			}
-		}
-
-		if update.updates2 != nil {
-			if err = db.cache.Populate2(*update.updates2); err != nil {
-				return err
-			}
-		}
-		if len(update.lastTxnID) > 0 {
-			db.monitors[cookie.ID].LastTransactionID = update.lastTxnID
-		}
-	}
-	// clear deferred updates for next time
-	db.deferredUpdates = make([]*bufferedUpdate, 0)
-
-	return err
+	return db.applyDeferredUpdates(cookie.ID)
 }
 
 // Echo tests the liveness of the OVSDB connetion
